@@ -36,7 +36,7 @@ PXF = {"": Fraction(1), "px": Fraction(1), "pt": Fraction(4, 3), "pc": Fraction(
 INF_EXACT = {"in": Fraction(1), "cm": Fraction(100, 254), "mm": Fraction(10, 254)}
 INF_LIB = {"in": Fraction(1), "cm": Fraction("0.393701"), "mm": Fraction("0.0393701")}
 OPS = ["+", "-", "/", "<", "<=", "=="]
-MANDATORY_LABELS = {"quick": ["op:%s" % o for o in OPS] + ["value:%s" % (u or "none") for u in UNITS] + ["to:mm", "to:cm", "to:inch"] + ["relunit:%s" % u for u in ("px", "pt", "pc", "in", "cm", "mm", "em", "ex", "vw", "vh", "vmin", "vmax")]}
+MANDATORY_LABELS = {"quick": ["op:%s" % o for o in OPS] + ["value:%s" % (u or "none") for u in UNITS] + ["to:mm", "to:cm", "to:inch"] + ["fontunit:px", "fontunit:pt", "fontunit:pc", "fontunit:none"] + ["relunit:%s" % u for u in ("px", "pt", "pc", "in", "cm", "mm", "em", "ex", "vw", "vh", "vmin", "vmax")]}
 MANDATORY_LABELS["thorough"] = MANDATORY_LABELS["quick"]
 
 AMOUNT_PAIRS = [("2", "3"), ("3", "2"), ("1.5", "-4"), ("-2.25", "0.5"), ("10", "10"), ("1e1", ".25"), ("0", "7"), ("5", "0")]
@@ -129,6 +129,7 @@ def decode(d):
             "kind": "value", "a": amount_text(d) + u, "ppi": d.choice([72, 96, 100, 254, 300]), "give": d.chance(6, 8),
             "rel": gen.loguniform(d, -1.0, 4.0, signed=False), "relkind": d.choice(["number", "string", "length", "unit-string"]),
             "relunit": d.choice(["px", "px", "pt", "pc", "in", "cm", "mm", "em", "ex", "vw", "vh", "vmin", "vmax"]),
+            "fontunit": d.choice([None, None, "px", "pt", "pc", ""]),  # font metrics given as numbers or as Length objects
             "fs": gen.loguniform(d, 0.0, 2.0, signed=False), "fh": gen.loguniform(d, 0.0, 2.0, signed=False),
             "vb": "%s %s %s %s" % (repr(gen.small_coord(d)), repr(gen.small_coord(d)), repr(w), repr(h)),
         }
@@ -211,6 +212,12 @@ def check_value(case):
     alt_ctx = None
     if give:
         ctx = {"ppi": case["ppi"], "rel": Fraction(float(case["rel"])), "fs": Fraction(float(case["fs"])), "fh": Fraction(float(case["fh"])), "vb": (vbnums[2], vbnums[3])}
+        fu = case.get("fontunit")
+        if fu is not None:
+            # the same metrics handed over as lengths: "12pt" is the usual spelling of a font size
+            o.label("fontunit:%s" % (fu or "none"))
+            ctx["fs"] = Fraction(float(case["fs"])) * PXF[fu]
+            ctx["fh"] = Fraction(float(case["fh"])) * PXF[fu]
         rk = case.get("relkind", "number")
         ru = case.get("relunit", "px")
         if rk == "number":
@@ -228,6 +235,9 @@ def check_value(case):
             ctx["rel"] = resolve(ctx["rel"], ru, ctx, INF_EXACT)
         o.label("rel:%s" % rk)
         kw = {"ppi": case["ppi"], "relative_length": rel, "font_size": case["fs"], "font_height": case["fh"], "viewbox": case["vb"]}
+        if fu is not None:
+            kw["font_size"] = se.Length(repr(case["fs"]) + fu)
+            kw["font_height"] = se.Length(repr(case["fh"]) + fu)
         o.label("vb:%s" % ("wide" if vbnums[2] > vbnums[3] else "tall"))
     length = se.Length(case["a"])
     got = length.value(**kw)
